@@ -84,10 +84,10 @@ def generate(rng, tier):
     bid = 0
     base = t_start
     for h in hosts:
-        nb = rng.choice([1, 1, 2]) if not big else 1
+        nb = rng.choice([1, 1, 2, 3]) if not big else 1
         for i in range(nb):
             types = [T1] if (big or rng.random() < 0.6) else rng.choice([[T2], [T1, T2]])
-            off = rng.choice(OFFS) * (bid > 0) + rng.choice([0.0, 0.0, 0.3]) * rng.random()
+            off = rng.choice(OFFS + [0.5, 1.2, 1.7, 2.2]) * (bid > 0) + rng.choice([0.0, 0.0, 0.3]) * rng.random()
             ops.append({"t": round(base + off, 6), "op": "browse", "h": h, "id": f"b{bid}", "types": types,
                         "delay": rng.choice([None, 1000]), "qtype": rng.choice([None, None, "QU", "QM"])})
             bid += 1
@@ -263,7 +263,10 @@ def _oracle(w, drv, sc, hs, stats, out):
             ans = {}
             for tx in pk:
                 for q in tx.msg.questions:
-                    qs[q.key()] = q
+                    # two askers may put the same question on the wire at one instant, one QU and one QM: the QM
+                    # copy is the one that matters for the question history
+                    if q.key() not in qs or not q.qu:
+                        qs[q.key()] = q
                 for r in tx.msg.answers:
                     ans.setdefault(r.ident(), []).append(r.ttl)
             # (1) known answers == non-stale cache entries for the questions asked
@@ -361,60 +364,81 @@ def _oracle(w, drv, sc, hs, stats, out):
                 continue
             op = next(o for o in sc["ops"] if o["op"] == "browse" and o["id"] == bid)
             types = [x.lower() for x in op["types"]]
+            # another browser of this host on the same type whose first (QU) pass could be mistaken for this one's
             shared = [o for o in sc["ops"] if o["op"] == "browse" and o["h"] == h and o["id"] != bid
-                      and set(x.lower() for x in o["types"]) & set(types)]
+                      and set(x.lower() for x in o["types"]) & set(types) and abs(o["t"] + t0 - lst.started) < 0.15]
             if shared:
                 continue
             mine = [(t, [q for tx in pk for q in tx.msg.questions if q.type == wire.T_PTR and q.name.lower() in types])
                     for t, pk in groups if t >= lst.started - 1e-9]
             mine = [(t, qq) for t, qq in mine if qq]
             forced = op.get("qtype")
+            shared_any = [o for o in sc["ops"] if o["op"] == "browse" and o["h"] == h and o["id"] != bid
+                          and set(x.lower() for x in o["types"]) & set(types)]
             if not mine:
                 continue
-            stats["startup_passes"] += min(4, len(mine))
-            t1, q1 = mine[0]
-            if not (0.02 - 1e-9 <= t1 - lst.started <= 0.1211):
-                if forced != "QM" and w.now - lst.started > 0.2 and (lst.cancelled is None):
-                    out.add("C13.first-query-withheld", f"host {h} browser {bid}: no query for {types} 20..120 ms after its "
-                            f"start at {lst.started - t0:.6f} although its first question is QU (first seen {t1 - t0:.6f})")
-                continue
-            # (3b) the start-up passes at +1 s, +5 s, +14 s ask every type unless the question is suppressible
-            for dt in (1.0, 5.0, 14.0):
-                tp = t1 + dt
-                if tp > w.now - 0.01 or (lst.cancelled is not None and tp >= lst.cancelled):
-                    break
-                present = {q.name.lower() for t, qq in mine if abs(t - tp) <= 0.0011 for q in qq}
-                for ty in types:
-                    if ty in present:
-                        continue
-                    if forced == "QU":
-                        out.add("C13.question-withheld", f"host {h} browser {bid}: QU question for {ty} missing from the "
-                                f"start-up pass at {tp - t0:.6f}")
-                        continue
-                    key = (ty, wire.T_PTR, wire.C_IN)
-                    tp_ms = tp * 1000.0
-                    cands = [(ta, kn) for (ta, k2, kn) in asked_log if k2 == key and ta < tp_ms - 1e-6]
-                    cands += [(th, kn) for (th, k2, kn) in S.heard_log if k2 == key and th < tp_ms + 2.0]
-                    q = wire.Q(ty, wire.T_PTR)
-                    known_now = set(S.known(q, tp, True)) | set(S.known(q, tp, False))
-                    sup = any(0 <= tp_ms - ta <= 999.0 + 2.0 and not (kn - known_now) for ta, kn in cands)
-                    if sup:
-                        stats["omitted_because_suppressed"] += 1
-                    else:
-                        out.add("C13.question-withheld", f"host {h} browser {bid}: question for {ty} missing from the "
-                                f"start-up pass at {tp - t0:.6f} although it was not asked or heard within the last 999 ms "
-                                f"(last: {[round(tp_ms - ta, 1) for ta, kn in cands][-3:]} ms ago)")
             want_qu = True if forced is None else forced == "QU"
-            if any(q.qu != want_qu for q in q1):
-                out.add("C13.browser-first-question-type", f"host {h} browser {bid} (forced={forced}): first query QU bits "
-                        f"{[q.qu for q in q1]}")
-            for t, qq in mine[1:4]:
-                want = False if forced is None else forced == "QU"
-                if any(q.qu != want for q in qq):
-                    out.add("C13.browser-later-question-type", f"host {h} browser {bid} (forced={forced}): query at "
-                            f"{t - t0:.6f} QU bits {[q.qu for q in qq]}")
-                    break
+            # this browser's first pass: the first query inside its 20..120 ms window that asks all of its types
+            first = [(t, qq) for t, qq in mine if 0.02 - 1e-9 <= t - lst.started <= 0.1211
+                     and {q.name.lower() for q in qq} >= set(types)
+                     and (shared_any == [] or all(any(q.name.lower() == ty and q.qu == want_qu for q in qq) for ty in types))]
+            stats["startup_passes"] += min(4, len(mine))
+            if forced == "QM" and shared_any:
+                continue  # its own first pass may have been suppressed: no anchor for its schedule on the trace
+            if not first:
+                if forced != "QM" and w.now - lst.started > 0.2 and (lst.cancelled is None):
+                    out.add("C13.first-query-withheld", f"host {h} browser {bid}: no query for all of {types} 20..120 ms "
+                            f"after its start at {lst.started - t0:.6f} although its first question is QU "
+                            f"(queries seen at {[round(t - t0, 4) for t, _ in mine][:4]})")
+                continue
+            def judge(t1, q1):
+                """Violations under the hypothesis that this browser's first pass was the query at t1."""
+                res = []
+                if not all(any(q.name.lower() == ty and q.qu == want_qu for q in q1) for ty in types):
+                    res.append(("C13.browser-first-question-type", f"host {h} browser {bid} (forced={forced}): first "
+                                f"query QU bits {[q.qu for q in q1]}"))
+                if not shared_any:
+                    later = [(t, qq) for t, qq in mine if t > t1][:3]
+                    for t, qq in later:
+                        want = False if forced is None else forced == "QU"
+                        if any(q.qu != want for q in qq):
+                            res.append(("C13.browser-later-question-type", f"host {h} browser {bid} (forced={forced}): "
+                                        f"query at {t - t0:.6f} QU bits {[q.qu for q in qq]}"))
+                            break
+                # (3b) the start-up passes at +1 s, +5 s, +14 s ask every type unless the question is suppressible
+                for dt in (1.0, 5.0, 14.0):
+                    tp = t1 + dt
+                    if tp > w.now - 0.01 or (lst.cancelled is not None and tp >= lst.cancelled):
+                        break
+                    present = {q.name.lower() for t, qq in mine if abs(t - tp) <= 0.0011 for q in qq}
+                    for ty in types:
+                        if ty in present:
+                            continue
+                        if forced == "QU":
+                            res.append(("C13.question-withheld", f"host {h} browser {bid}: QU question for {ty} missing "
+                                        f"from the start-up pass at {tp - t0:.6f}"))
+                            continue
+                        key = (ty, wire.T_PTR, wire.C_IN)
+                        tp_ms = tp * 1000.0
+                        cands = [(ta, kn) for (ta, k2, kn) in asked_log if k2 == key and ta < tp_ms - 1e-6]
+                        cands += [(th, kn) for (th, k2, kn) in S.heard_log if k2 == key and th < tp_ms + 2.0]
+                        q = wire.Q(ty, wire.T_PTR)
+                        known_now = set(S.known(q, tp, True)) | set(S.known(q, tp, False))
+                        sup = any(-2.0 <= tp_ms - ta <= 999.0 + 2.0 and not (kn - known_now) for ta, kn in cands)
+                        if sup:
+                            stats["omitted_because_suppressed"] += 1
+                        else:
+                            res.append(("C13.question-withheld", f"host {h} browser {bid}: question for {ty} missing from "
+                                        f"the start-up pass at {tp - t0:.6f} although it was not asked or heard within the "
+                                        f"last 999 ms (last: {[round(tp_ms - ta, 1) for ta, kn in cands][-3:]} ms ago)"))
+                return res
 
+            # with several browsers on one type any query in the window may be this browser's first pass: the
+            # schedule must hold for at least one of the candidates
+            verdicts = [judge(t1, q1) for t1, q1 in first]
+            if not any(v == [] for v in verdicts):
+                for clause, text in verdicts[0]:
+                    out.add(clause, text)
 
 if __name__ == "__main__":
     import checks.c13 as me
